@@ -39,7 +39,7 @@
 use crate::{
     error::{Error, ErrorExt, ErrorImpl},
     flags::{OpenFlags, ResolverFlags},
-    procfs::GLOBAL_PROCFS_HANDLE,
+    procfs::global_procfs_handle,
     resolvers::{opath::SymlinkStack, PartialLookup, MAX_SYMLINK_TRAVERSALS},
     syscalls,
     utils::{self, FdExt, PathIterExt},
@@ -74,7 +74,7 @@ fn check_current<RootFd: AsFd, Fd: AsFd, P: AsRef<Path>>(
     //         path will be re-checked after the unsafe "current_path" is
     //         generated.
     let root_path = root
-        .as_unsafe_path(&GLOBAL_PROCFS_HANDLE)
+        .as_unsafe_path(global_procfs_handle()?)
         .wrap("get root path to construct expected path")?;
 
     // Combine the root path and our expected_path to get the full path to
@@ -99,7 +99,7 @@ fn check_current<RootFd: AsFd, Fd: AsFd, P: AsRef<Path>>(
     // SAFETY: as_unsafe_path is safe here since we're explicitly doing a
     //         string-based check to see whether the path we want is correct.
     let current_path = current
-        .as_unsafe_path(&GLOBAL_PROCFS_HANDLE)
+        .as_unsafe_path(global_procfs_handle()?)
         .wrap("check fd against expected path")?;
 
     // The paths should be identical.
@@ -120,7 +120,7 @@ fn check_current<RootFd: AsFd, Fd: AsFd, P: AsRef<Path>>(
     // SAFETY: as_unsafe_path path is safe here because it's just used in a
     //         string check -- and it's known that this check isn't perfect.
     let new_root_path = root
-        .as_unsafe_path(&GLOBAL_PROCFS_HANDLE)
+        .as_unsafe_path(global_procfs_handle()?)
         .wrap("get root path to double-check it hasn't moved")?;
     if root_path != new_root_path {
         Err(ErrorImpl::SafetyViolation {
@@ -144,7 +144,7 @@ static PROTECTED_SYMLINKS_SYSCTL: OnceCell<u32> = OnceCell::new();
 fn protected_symlinks_sysctl() -> Result<u32, Error> {
     PROTECTED_SYMLINKS_SYSCTL
         .get_or_try_init(|| {
-            utils::sysctl_read_parse(&GLOBAL_PROCFS_HANDLE, "fs.protected_symlinks")
+            utils::sysctl_read_parse(global_procfs_handle()?, "fs.protected_symlinks")
                 .wrap("read fs.protected_symlinks sysctl")
         })
         .map(|v| *v)
